@@ -68,8 +68,8 @@ func ReadValue(source io.Reader, version ProtocolVersion) (*Value, error) {
 	} else if length == 0 {
 		return NewValue([]byte{}), nil
 	} else {
-		decoded := make([]byte, length)
-		if _, err := io.ReadFull(source, decoded); err != nil {
+		decoded, err := readContent(source, length)
+		if err != nil {
 			return nil, fmt.Errorf("cannot read [value] content: %w", err)
 		}
 		return NewValue(decoded), nil
